@@ -905,6 +905,20 @@ func (n *TxNotifier) UpdateConfDetails(confRequest ConfRequest,
 	// Cache the details found in the rescan and attempt to dispatch any
 	// notifications that have not yet been delivered.
 	confSet.details = details
+
+	// Track the cached details by their block height, so that they are
+	// dropped again if that block is reorged out of the chain. This must
+	// not depend on a client being registered at the moment: all of them
+	// may have canceled while the rescan was running.
+	if details.BlockHeight+n.reorgSafetyLimit > n.currentHeight {
+		txSet, exists := n.confsByInitialHeight[details.BlockHeight]
+		if !exists {
+			txSet = make(map[ConfRequest]struct{})
+			n.confsByInitialHeight[details.BlockHeight] = txSet
+		}
+		txSet[confRequest] = struct{}{}
+	}
+
 	for _, ntfn := range confSet.ntfns {
 		// The default notification we assigned above includes the
 		// block along with the rest of the details. However not all
@@ -1374,6 +1388,20 @@ func (n *TxNotifier) updateSpendDetails(spendRequest SpendRequest,
 		"request %v", details.SpendingHeight, spendRequest)
 
 	spendSet.details = details
+
+	// Track the cached details by their spending height, so that they are
+	// dropped again if that block is reorged out of the chain, also when
+	// no client is registered at the moment.
+	spendHeight := uint32(details.SpendingHeight)
+	if spendHeight+n.reorgSafetyLimit > n.currentHeight {
+		opSet, exists := n.spendsByHeight[spendHeight]
+		if !exists {
+			opSet = make(map[SpendRequest]struct{})
+			n.spendsByHeight[spendHeight] = opSet
+		}
+		opSet[spendRequest] = struct{}{}
+	}
+
 	for _, ntfn := range spendSet.ntfns {
 		err := n.dispatchSpendDetails(ntfn, spendSet.details)
 		if err != nil {
